@@ -92,6 +92,22 @@ def factor_grid(bits, signed, tier, rnd):
     return out
 
 
+def near_limit_pairs(bits, signed):
+    """rational factors whose numerator AND denominator sit near the rep's maximum (both fit the rep, their product does not fit
+    the promoted type for the narrow reps): values that are multiples of the denominator exist, and the product by the numerator
+    is the step that overflows"""
+    tm = tmax(bits, signed)
+    near = sorted({tm, tm - 1, tm - 2, tm * 15 // 16, tm * 7 // 8 + 1, tm * 3 // 4 + 1, tm // 2 + 1, tm // 2 + 2, tm // 2 - 1, math.isqrt(pmax(bits, signed)) + 1})
+    out = []
+    for a in near:
+        for b in near:
+            if a != b and a > 1 and b > 1:
+                n, d = _norm(a, b)
+                if d > 1 and n > 1:
+                    out.append((n, d))
+    return sorted(set(out))
+
+
 def conv_level(bits, signed, n, d):
     """0: conversion does not compile, 1: coerce_* compiles, 2: also policy-checked .in/.as."""
     tm, pm = tmax(bits, signed), pmax(bits, signed)
@@ -181,6 +197,10 @@ def plan(tier):
         rnd.shuffle(comp)
         rnd.shuffle(nonc)
         chosen = comp[:per_type] + nonc[:max(6, per_type // 8)]
+        # the near-limit family is kept in every run (all of it for the exhaustively swept 8/16-bit reps)
+        nl = [g for g in near_limit_pairs(bits, signed) if conv_level(bits, signed, *g) > 0 and g not in chosen]
+        rnd.shuffle(nl)
+        chosen += nl[: (24 if bits <= 16 else 8) * (1 if tier == "quick" else 3)]
         n32 = 0
         for n, d in chosen:
             inst = {"id": iid, "T": tname, "bits": bits, "signed": signed, "N": n, "D": d, "conv": conv_level(bits, signed, n, d)}
